@@ -7,6 +7,13 @@ props = [json.loads(l) for l in open(os.path.join(HERE, "properties.jsonl"))]
 
 # id -> (level, technique, level text, level note, design ref)
 CLAIMS = {
+    "C17": ("other",
+            "TLA+ layout specification of the zexdoc/zexall images evaluated by TLC on the image bytes and the dumped Go tables; pinned digests",
+            "TLC evaluates ZexTables!Result on the bytes of both canonical images and on the Go tables dumped from a copy of "
+            "internal/zex: record count, order, all 65 bytes and the description of each of the 2 x 67 records; the images "
+            "are pinned by SHA-256. Complete for the finite comparison the property states.",
+            "A constant-level use of TLA+ (a layout definition evaluated on data), not a behavioural model.",
+            "DESIGN.md section 3 C17"),
     "C15": ("model_checking",
             "sequential TLA+ specification of the byte stores (MemIO) model-checked by TLC + operation sequences recorded from the real types validated by TLC",
             "TLC exhaustively explores operation sequences of the MemIO specification over boundary lengths/addresses with "
